@@ -7,6 +7,7 @@
                                 multi-item section, see do_load; reads as <id>), C import used by a direct call,
                                 P import used by `mov t,<ref>; call t`, R import used by
                                 `mov t,<ref>; mov r,i64:(t)`  (name = one lower-case letter)
+     reload <id>              MIR_load_module again on the module object built by `load <id> ...`
      ext <name> <k|N>         MIR_load_external (name, address of object #k), k in 0..9, value 100+k;
                                 N = address NULL (shown as 0)
                                 (names d,e: an int64 cell; other names: a C function)
@@ -83,6 +84,8 @@ typedef struct {
   MIR_module_t m;
   MIR_item_t entry;
   MIR_item_t imp[MAX_IMPS];
+  MIR_item_t bss[8]; /* bss heads: (re)filled with <id> after every load of the module */
+  int nbss;
   char imp_name[MAX_IMPS], imp_use[MAX_IMPS];
 } mod_t;
 static mod_t mods[MAX_MODS];
@@ -211,7 +214,22 @@ static void do_load (int id, int ndecl, char **decls) {
   MIR_load_module (ctx, md->m);
   for (int i = 0; i < ndefs; i++) note_addr (defs[i]->addr, id);
   for (int i = 0; i < ncells; i++) note_addr (cells[i]->addr, id);
-  for (int i = 0; i < nbss; i++) *(int64_t *) bss[i]->addr = id;
+  for (int i = 0; i < nbss; i++) {
+    *(int64_t *) bss[i]->addr = id;
+    if (md->nbss < 8) md->bss[md->nbss++] = bss[i];
+  }
+  printf ("ok\n");
+}
+
+/* `reload <id>`: MIR_load_module on a module object that has been loaded before */
+static void do_reload (int id) {
+  mod_t *md = NULL;
+  for (int i = 0; i < n_mods; i++)
+    if (mods[i].id == id) md = &mods[i];
+  if (md == NULL) { printf ("bad reload %d\n", id); fflush (stdout); _exit (3); }
+  md->done = 0; /* its thunks are redirected to undefined_interface until the next link */
+  MIR_load_module (ctx, md->m);
+  for (int i = 0; i < md->nbss; i++) *(int64_t *) md->bss[i]->addr = id;
   printf ("ok\n");
 }
 
@@ -306,6 +324,7 @@ static void run_history (char **lines, int n) {
     }
     cur_is_link = strcmp (tok[0], "link") == 0;
     if (strcmp (tok[0], "load") == 0 && nt >= 2) do_load (atoi (tok[1]), nt - 2, tok + 2);
+    else if (strcmp (tok[0], "reload") == 0 && nt == 2) do_reload (atoi (tok[1]));
     else if (strcmp (tok[0], "ext") == 0 && nt == 3) {
       int c = tok[1][0], k = atoi (tok[2]) % 10;
       MIR_load_external (ctx, tok[1],
